@@ -526,11 +526,12 @@ def topological_ordering(A):
 
     """
     # Check that there are no undirected edges
-    if only_undirected(A).sum() > 0:
+    if (only_undirected(A) != 0).any():
         raise ValueError("The given graph is not a DAG")
     # Run the algorithm from the 1962 paper "Topological sorting of
-    # large networks" by AB Kahn
-    A = A.copy()
+    # large networks" by AB Kahn. Work on the non-zero pattern, so
+    # that negative or cancelling weights do not affect the sums below
+    A = (A != 0).astype(int)
     sinks = list(np.where(A.sum(axis=0) == 0)[0])
     ordering = []
     while len(sinks) > 0:
